@@ -28,6 +28,7 @@ type Mode struct {
 	StaleWrites bool // other subsystems write status fields through their own (stale) handle
 	StripDLP    bool // sometimes strip the data-loss-protect fields
 	DurableRead bool // re-read LocalCommitment from the DB at every release (C06)
+	ManyHtlcs   bool // event mix that lets hundreds of HTLCs pile up (C01 many-HTLC arm)
 	ForgedRev   bool // a revoke_and_ack may arrive with a secret that is not the peer's (C06)
 	MaxSteps    int
 	MaxHtlcs    int
@@ -619,6 +620,14 @@ func (s *Sim) anchorsMsat() lnwire.MilliSatoshi {
 // checkCommit compares one stored commitment (as held by side `holder`)
 // with the model and checks conservation.
 func (s *Sim) checkCommit(holder int, c *channeldb.ChannelCommitment, mc Commit, label string) {
+	switch n := len(c.Htlcs); {
+	case n >= 400:
+		s.R.Count("probe_commitment_with_400+_htlc_outputs")
+	case n >= 200:
+		s.R.Count("probe_commitment_with_200+_htlc_outputs")
+	case n >= 60:
+		s.R.Count("probe_commitment_with_60+_htlc_outputs")
+	}
 	r := s.R
 	o := 1 - holder
 	tag := fmt.Sprintf("%s.%s", nm(holder), label)
